@@ -145,6 +145,8 @@ pub enum BadGlyphKind {
     PathConversion(PathConversionError),
     Anchor(BadAnchor),
     BadDeltas(DeltaError),
+    /// The glyph uses itself as a component, directly or through other glyphs
+    ComponentCycle(Vec<GlyphName>),
     FrontendSpecific(String),
 }
 
@@ -286,6 +288,16 @@ impl std::fmt::Display for BadGlyphKind {
             BadGlyphKind::NoAxisPosition(axis) => write!(f, "no position on '{axis}' axis"),
             BadGlyphKind::Anchor(e) => write!(f, "bad anchor: '{e}'"),
             BadGlyphKind::BadDeltas(e) => write!(f, "delta error: '{e}'"),
+            BadGlyphKind::ComponentCycle(path) => {
+                f.write_str("component cycle: ")?;
+                for name in path {
+                    write!(f, "{name} -> ")?;
+                }
+                match path.first() {
+                    Some(first) => write!(f, "{first}"),
+                    None => Ok(()),
+                }
+            }
             BadGlyphKind::FrontendSpecific(e) => write!(f, "{}", e),
         }
     }
